@@ -22,7 +22,7 @@ int vprop_cpu_limit_s = 60;
 const char *vprop_class_names[V_NCLASS] = {
   "form_full", "form_bare", "form_noexec", "float", "has_64bit", "two_d", "accumulator", "x2_x4", "special_load",
   "params", "O0", "O2", "O3", "single_opcode", "const_n", "emulator_regenerated", "difference_within_nan_or_zero_tie_freedom",
-  "float_difference_reference_unsupported", "variable_classes_filled_to_limit", NULL
+  "float_difference_reference_unsupported", "variable_classes_filled_to_limit", "optimising_gcc_alone_disagrees_tool_miscompilation", NULL
 };
 
 void vprop_init (int argc, char **argv) { (void) argc; (void) argv; orc_init (); }
@@ -157,6 +157,48 @@ void vprop_case (VChoices *c, VResult *r)
         }
       }
       if (!differ) msg[0] = 0;
+    }
+    if (msg[0] && opt != 0) {
+      /* Whose mistake?  The same source is compiled three more ways and run on the same inputs: gcc -O0, clang -O2, and gcc -O1 with
+         UBSan trapping.  If the two other builds agree with emulation and UBSan finds no undefined behaviour on this input, the
+         optimising gcc build is the odd one out: a miscompilation by the tool (gcc 12.2 -O3 loop distribution was seen to move a
+         memset of an in-place destination in front of the loop that still reads it), counted and not judged.  Anything else - another
+         build differs too, or the source has undefined behaviour here - stays a violation. */
+      static const char *alts[3] = { "-O0", "clang:-O2", "-O1 -fsanitize=undefined -fno-sanitize-recover=undefined -fsanitize-undefined-trap-on-error" };
+      int a, agree = 0;
+      for (a = 0; a < 3; a++) {
+        CgUnit u2;
+        Arena a2, e2;
+        OrcExecutor x2, y2;
+        char m2[600];
+        OrcProgram *p2 = ps_build (&ps);
+        int ok = 0;
+        if (cg_make (p2, &ps, variant, alts[a], scratch, &u2) == 0) {
+          if (!arena_build (&a2, &ps, &rc, 0) && !arena_build (&e2, &ps, &rc, 0)) {
+            pid_t pid;
+            int st = 0;
+            exec_setup (&x2, p2, NULL, &ps, &rc, &a2);
+            exec_setup (&y2, p2, NULL, &ps, &rc, &e2);
+            fflush (NULL);
+            pid = fork ();              /* the UBSan build traps: keep that away from this process */
+            if (pid == 0) {
+              u2.fn (&x2);
+              orc_executor_emulate (&y2);
+              _exit (arena_compare (&a2, &e2, &ps, &rc, &x2, &y2, m2, sizeof m2) ? 1 : 0);
+            }
+            if (pid > 0 && waitpid (pid, &st, 0) == pid && WIFEXITED (st) && WEXITSTATUS (st) == 0) ok = 1;
+          }
+          arena_free (&a2); arena_free (&e2);
+          cg_close (&u2);
+        }
+        orc_program_free (p2);
+        if (ok) agree++;
+      }
+      if (agree == 3 && !ps.has_float) {
+        v_desc (r, "# gcc %s disagrees with emulation (%s) but gcc -O0, clang -O2 and a UBSan build of the same source agree with it: compiler, not source\n", opts[opt], msg);
+        r->classes |= 1u << 19;
+        msg[0] = 0;
+      }
     }
     if (msg[0]) {
       snprintf (sig, sizeof sig, "c-vs-emulation form=%s first_op=%s", cg_variant_name (variant), ps.ins[0].op->name);
